@@ -5,29 +5,29 @@ import HLV.Props.HoldFamily
 namespace HLV
 
 -- @theorem C11_panicking_session_releases_everything : a session of any API flavour, key style, mode and shape whose body panics (exit = panic) ends — in the caller's catch_unwind — with nothing held, on every answer sequence
-theorem C11_panicking_session_releases_everything (n : Nat) (C : Ctx) (ses : Session)
-    (hok : SesOK C ses) (_hp : ses.exit = .panic) (u : UserSt) (g : HG)
+theorem C11_panicking_session_releases_everything (n : Nat) (ro : RankOpt) (C : Ctx) (ses : Session)
+    (hok : SesOK ro C ses) (_hp : ses.exit = .panic) (u : UserSt) (g : HG)
     (hh : g.held = Held.empty) (hd : g.depth = 0) :
-    wp (HoldSpec n) (session C ses u) (fun _ g' => g'.held = Held.empty ∧ g'.depth = 0)
+    wp (HoldSpec n ro) (session C ses u) (fun _ g' => g'.held = Held.empty ∧ g'.depth = 0)
       (fun _ _ => False) g :=
   session_spec C ses u g _ _ hok hh hd (fun _ _ _ a b => ⟨a, b⟩)
 
 -- @theorem C11_unwinding_guard_drop_releases_all : while a panic unwinds, dropping the guard still releases every leaf exactly once (poison flags are set on the way); it cannot itself unwind
-theorem C11_unwinding_guard_drop_releases_all (n : Nat) (S : Shape) (m : Mode) (g : HG)
+theorem C11_unwinding_guard_drop_releases_all (n : Nat) (ro : RankOpt) (S : Shape) (m : Mode) (g : HG)
     (hc : g.held.Covers (holdsOf S m)) :
-    wp (HoldSpec n) (guardDrop m (guardItems S) true)
+    wp (HoldSpec n ro) (guardDrop m (guardItems S) true)
       (fun _ g' => g'.held = g.held.minus (holdsOf S m)) (fun _ _ => False) g := by
   apply guardDrop_spec
   · rw [itemsFp_guardItems]; exact hc
   · intro _ g' a _; rw [itemsFp_guardItems] at a; exact a
 
 -- @theorem C11_key_back_after_panic_with_nothing_held : on every execution, the point at which a panicked call has given the key back (mark keyBack) is reached with nothing held
-theorem C11_key_back_after_panic_with_nothing_held (n : Nat) (C : Ctx) (prog : List Stmt)
-    (hok : ProgOK C prog) (u : UserSt)
+theorem C11_key_back_after_panic_with_nothing_held (n : Nat) (ro : RankOpt) (C : Ctx) (prog : List Stmt)
+    (hok : ProgOK ro C prog) (u : UserSt)
     {tr₁ tr₂ : List (Op × Resp)} {r : Resp} {out : Outcome Unit UserSt}
     (hp : Path (program C prog u) (tr₁ ++ (.mark mkKeyBack, r) :: tr₂) out)
-    (ha : Admissible (HoldSpec n) {} tr₁) :
-    ∀ x m, (ghostAfter (HoldSpec n) {} tr₁).held x m = 0 :=
-  program_op_ok n C prog hok u hp ha (Or.inl rfl)
+    (ha : Admissible (HoldSpec n ro) {} tr₁) :
+    ∀ x m, (ghostAfter (HoldSpec n ro) {} tr₁).held x m = 0 :=
+  program_op_ok n ro C prog hok u hp ha (Or.inl rfl)
 
 end HLV
